@@ -44,6 +44,8 @@ def print_closure(prog):
 
 
 def check(prog, run):
+    from . import c03 as _c03
+    _c03.check_indent(prog, run, "I1")   # = C03.I1: block strings of directive arguments are laid out by _indent
     cls, fns = print_closure(prog)
 
     # ---- P1 purity / history independence
